@@ -3,6 +3,9 @@
 #include "spec/ghost.h"
 GHOST_DEFS
 #include "contracts/hash.h"
+#include "contracts/hashfn.h"      /* hash_init / hash_update / hash_finalize: the text every caller unit assumes */
+#include "contracts/hash_close.h"
+#include "stubs/libhash.h"         /* assumed ghost-recording contracts of the back end lib_hash_* */
 #include "src/lib/hash/hash.c"
 
 typedef struct { int h; int type0, size0; int zck_null, err0; } IN_hs;
@@ -19,6 +22,61 @@ void h_hash_setup(void) {
     V_ASSERT(r == SPEC_HASH_VALID(in.h), "C07,C13,C18.hash_setup.accept_iff_known_type");
     V_ASSERT(!r || (ht->type == in.h && ht->digest_size == SPEC_DIGEST_SIZE(in.h)), "C07,C13,C18.hash_setup.digest_size_of_type");
     V_COVER(r && in.h == 3); V_COVER(r && in.h == 0); V_COVER(!r && in.h < 0); V_COVER(!r && in.h > 3);
+}
+
+/* ---- hash_init / hash_update / hash_finalize / hash_close: the contracts of contracts/hashfn.h ENFORCED on the
+ * real functions, back end lib_hash_* by the assumed ghost-recording contracts of stubs/libhash.h ---- */
+typedef struct { zckCtx zany; zckHash hany; int zck_null, hash_null, ctx_live, type_set, ht_null, type, dsz, watched; size_t size; int msg_null;
+                 size_t hu_total0, hu_k, k1; unsigned hu_seen0, hu_final0, hu_inits0; } IN_hg;
+V_INPUT(IN_hg)
+static zckCtx *hg_zck(IN_hg *in) { if(in->zck_null) return NULL; zckCtx *z = malloc(sizeof(*z)); V_ASSUME(z != NULL); *z = in->zany; V_ASSUME(z->error_state >= 0 && z->error_state <= 2); return z; }
+static zckHashType *hg_type(IN_hg *in) { zckHashType *t = malloc(sizeof(*t)); V_ASSUME(t != NULL); t->type = in->type; t->digest_size = in->dsz; return t; }
+static zckHash *hg_hash(IN_hg *in) {
+    zckHash *h = malloc(sizeof(*h)); V_ASSUME(h != NULL); *h = in->hany;
+    h->ctx = NULL; h->type = NULL;
+    if(in->ctx_live) { h->ctx = malloc(1); V_ASSUME(h->ctx != NULL); }
+    if(in->type_set) h->type = hg_type(in);
+    V_ASSUME(in->hu_final0 < 1000 && in->hu_inits0 < 1000 && in->hu_seen0 < 1000 && in->hu_total0 < ((size_t)1 << 60));
+    g_hu_hash = in->watched ? h : NULL; g_hu_total = in->hu_total0; g_hu_k = in->hu_k; g_hu_seen = in->hu_seen0;
+    g_hu_final = in->hu_final0; g_hu_inits = in->hu_inits0; g_k1 = in->k1;
+    return h;
+}
+void h_hash_init(void) {
+    IN_hg in = nondet_IN_hg();
+#ifdef VERIF_HT_SET
+    V_ASSUME(!in.ht_null);
+#elif defined(VERIF_HT_NULL)
+    V_ASSUME(in.ht_null);
+#endif
+    zckCtx *zck = hg_zck(&in); zckHash *h = hg_hash(&in);
+    zckHashType *ht = in.ht_null ? NULL : hg_type(&in);
+    bool r = hash_init(zck, h, ht);
+#ifdef VERIF_HT_NULL
+    V_COVER(!r && in.ctx_live);
+#else
+    V_COVER(r && in.type == 3 && in.ctx_live && in.watched); V_COVER(!r && in.type == 7); V_COVER(!r && in.type == 1); V_COVER(r && !in.watched && zck == NULL);
+#endif
+}
+void h_hash_update(void) {
+    IN_hg in = nondet_IN_hg();
+    zckCtx *zck = hg_zck(&in); zckHash *h = in.hash_null ? NULL : hg_hash(&in);
+    char *m = NULL;
+    if(!in.msg_null) { m = malloc(in.size); V_ASSUME(m != NULL); }
+    bool r = hash_update(zck, h, m, in.size);
+    V_COVER(r && m != NULL && in.size == 9 && in.watched && g_hu_seen == in.hu_seen0 + 1); V_COVER(r && m == NULL); V_COVER(!r && m == NULL); V_COVER(!r && m != NULL && in.size == 0);
+    V_COVER(!r && h != NULL && in.ctx_live && in.type_set && in.size > 0 && m != NULL); V_COVER(!r && h == NULL);
+}
+void h_hash_finalize(void) {
+    IN_hg in = nondet_IN_hg();
+    zckCtx *zck = hg_zck(&in); zckHash *h = hg_hash(&in);
+    char *d = hash_finalize(zck, h);
+    V_COVER(d != NULL && in.type == 3 && in.watched); V_COVER(d == NULL && !in.ctx_live); V_COVER(d == NULL && in.ctx_live && in.type_set && in.type == 2); V_COVER(d == NULL && in.type == 9 && in.ctx_live && in.type_set);
+}
+void h_hash_close(void) {
+    IN_hg in = nondet_IN_hg();
+    zckHash *h = in.hash_null ? NULL : hg_hash(&in);
+    hash_close(h);
+    V_COVER(h == NULL); V_COVER(h != NULL && in.ctx_live); V_COVER(h != NULL && !in.ctx_live && in.type_set);
 }
 
 #ifdef VERIF_NATIVE
